@@ -67,6 +67,7 @@ package bloomsearch
 
 //@ extern errors.Join
 //@ pure
+//@ ensures result == nil <==> forall e in errs :: e == nil     // nil exactly when there is nothing to report (package errors)
 
 // A context's Done channel is a function of the context; Err is non-nil once a
 // receive from that channel has completed (the context package's contract).
@@ -143,7 +144,7 @@ package bloomsearch
 //@ modifies ghost.mutexLocks
 //@ ensures ghost.mutexLocks == old(ghost.mutexLocks) + 1
 
-//@ modset store =ghost.lastBuiltFrom, ghost.seekPos, ghost.stageIn, ghost.rowsScanned, ghost.scanErrs, ghost.unions, ghost.written, ghost.layoutOvf, ghost.creates, ghost.created, ghost.writes, ghost.closeCalls, ghost.closeOK, ghost.aborts, ghost.tombstones, ghost.opens, ghost.updates, ghost.updateOK, ghost.closeOKAtUpdate, ghost.updateOKAtTombstone, ghost.tombstonesAtUpdate
+//@ modset store =ghost.tombFails, ghost.lastBuiltFrom, ghost.seekPos, ghost.stageIn, ghost.rowsScanned, ghost.scanErrs, ghost.unions, ghost.written, ghost.layoutOvf, ghost.creates, ghost.created, ghost.writes, ghost.closeCalls, ghost.closeOK, ghost.aborts, ghost.tombstones, ghost.opens, ghost.updates, ghost.updateOK, ghost.closeOKAtUpdate, ghost.updateOKAtTombstone, ghost.tombstonesAtUpdate
 //@ modset answers = ghost.attempts, ghost.roundAttempts, ghost.sendRounds, ghost.nilRounds, ghost.updateOKAtNilRound, ghost.sends, ghost.nilsends, ghost.recvs
 
 // Store interfaces: results are unconstrained (any call may fail, in any
@@ -154,8 +155,10 @@ package bloomsearch
 //@ ensures ghost.creates == old(ghost.creates) + 1
 //@ ensures ghost.created == old(ghost.created) + (result2 == nil ? 1 : 0)
 
+//@ ghostvar tombFails int   // TombstoneFile calls that returned an error
 //@ extern DataStore.TombstoneFile
-//@ modifies ghost.tombstones, ghost.updateOKAtTombstone
+//@ modifies ghost.tombstones, ghost.updateOKAtTombstone, ghost.tombFails
+//@ ensures ghost.tombFails == old(ghost.tombFails) + (result != nil ? 1 : 0)
 //@ ensures ghost.tombstones == old(ghost.tombstones) + 1
 //@ ensures ghost.updateOKAtTombstone == ghost.updateOK
 
@@ -290,7 +293,7 @@ package bloomsearch
 //@ func (*BloomSearchEngine).abortFileWriter
 //@ props C06 C13
 //@ requires b != nil
-//@ modifies ghost.aborts, ghost.closeCalls, ghost.closeOK, ghost.tombstones, ghost.updateOKAtTombstone
+//@ modifies ghost.aborts, ghost.closeCalls, ghost.closeOK, ghost.tombstones, ghost.updateOKAtTombstone, ghost.tombFails
 //@ ensures ghost.tombstones == old(ghost.tombstones) + 1
 //@ ensures ghost.updateOKAtTombstone == ghost.updateOK
 //@ ensures ghost.aborts + ghost.closeCalls <= old(ghost.aborts) + old(ghost.closeCalls) + 1
@@ -619,6 +622,19 @@ package bloomsearch
 //@ ensures result != nil && result.callerCtx == ctx && !result.iterDone && !result.finalized && result.err == nil
 //@ ensures cap(result.rowChan) == queryRowBatchBuffer
 
+// recordQueryError keeps every failure: the new error goes to the end of the list
+// and the ones recorded before stay where they are.
+//@ func (*Results).recordQueryError
+//@ appends r.errs
+//@ props C20
+//@ requires [C20] r != nil
+//@ entry ghost.errsRecorded = ghost.errsRecorded + 1
+//@ modifies r.errs, heap(error), ghost.errsRecorded, ghost.mutexLocks, ghost.mutexUnlocks
+//@ ensures ghost.errsRecorded == old(ghost.errsRecorded) + 1
+//@ ensures len(r.errs) == old(len(r.errs)) + 1 && r.errs[len(r.errs) - 1] == err
+//@ ensures forall k :: 0 <= k && k < old(len(r.errs)) ==> r.errs[k] == old(r.errs[k])
+//@ ensures ghost.mutexLocks - old(ghost.mutexLocks) == ghost.mutexUnlocks - old(ghost.mutexUnlocks)
+
 // Terminal state decided once: finish sets iterDone/finalized, clears the
 // iteration state, and writes err only if no terminal state existed.
 //@ func (*Results).finish
@@ -635,6 +651,7 @@ package bloomsearch
 //@ props C20
 //@ requires r != nil
 //@ modifies ghost.mutexLocks, ghost.mutexUnlocks
+//@ ensures result == nil <==> forall e in r.errs :: e == nil     // every recorded failure is reported: nil only if none was recorded
 //@ ensures ghost.mutexLocks - old(ghost.mutexLocks) == ghost.mutexUnlocks - old(ghost.mutexUnlocks)
 
 // terminate (Next observed cancellation or Close): never returns true, always
@@ -737,8 +754,9 @@ package bloomsearch
 //@ func recordUnreadBlocks
 //@ props C23
 //@ requires r != nil
-//@ modifies heap(Results), heap(BlockStats), ghost.statsRecorded, ghost.statsSkipped, ghost.statsNonZeroSkipped, ghost.mutexLocks, ghost.mutexUnlocks
+//@ modifies r.blockStats, heap(BlockStats), ghost.statsRecorded, ghost.statsSkipped, ghost.statsNonZeroSkipped, ghost.mutexLocks, ghost.mutexUnlocks
 //@ loop 0 invariant -1 <= $index && $index < len(blocks) && ghost.statsRecorded == old(ghost.statsRecorded) + $index + 1 && ghost.statsSkipped == old(ghost.statsSkipped) && ghost.statsNonZeroSkipped == old(ghost.statsNonZeroSkipped)
+//@ loop 0 invariant otherfields(r, blockStats) && cellsframe(r)     // only the stats list of this cursor is written
 //@ ensures ghost.statsRecorded == old(ghost.statsRecorded) + len(blocks)
 //@ ensures ghost.statsSkipped == old(ghost.statsSkipped) && ghost.statsNonZeroSkipped == old(ghost.statsNonZeroSkipped)
 
@@ -901,6 +919,45 @@ package bloomsearch
 //@ loop 1 invariant -1 <= $index && forall k :: 0 <= k && k <= $index && k < len(scratch.regexTexts) ==> len(scratch.regexTexts[k]) == 0
 //@ at call (*pathWalker).walk#1 assert [C02] forall k :: 0 <= k && k < len(scratch.sat) ==> !scratch.sat[k]
 //@ at call (*pathWalker).walk#1 assert [C02] forall k :: 0 <= k && k < len(scratch.regexTexts) ==> len(scratch.regexTexts[k]) == 0
+
+// evalMatcherNode computes exactly the documented combination of the condition
+// verdicts (C02: a delivered row satisfies the compiled expression; C25): for any
+// valuation mval of matcher nodes that agrees one level down with the node
+// semantics over these verdicts (true / the condition's verdict / all children /
+// some child / false), the result is the node's value. By induction on the tree.
+//@ specfun mval(x matcherNode) bool
+//@ pred mOK(x matcherNode, sat []bool) = mval(x) <==> (x.kind == matcherNodeTrue || (x.kind == matcherNodeCond && sat[x.cond]) || (x.kind == matcherNodeAnd && forall ch in x.children :: mval(ch)) || (x.kind == matcherNodeOr && exists ch in x.children :: mval(ch)))
+//@ func evalMatcherNode
+//@ props C25
+//@ modifies nothing
+//@ requires [C25] n != nil && forall x matcherNode :: mOK(x, sat)
+//@ loop 0 invariant [C25] -1 <= $index && $index < len(n.children) && forall ch in n.children[:$index + 1] :: mval(ch)
+//@ loop 1 invariant [C25] -1 <= $index && $index < len(n.children) && forall ch in n.children[:$index + 1] :: !mval(ch)
+//@ ensures [C25] result <==> mval(*n)
+
+// matchLeafTokens (C02 / C01 L8): every token of the leaf is compared with EVERY
+// condition still open at this leaf — a token that several conditions name
+// satisfies all of them (general tokenizer path: nested loop invariants over the
+// tokenizer's result and the target list; fast path: the word callback). Verdicts
+// only ever flip from false to true.
+//@ pred hitAll(tk str, ts []int, m *compiledRowMatcher, sat []bool) = forall i in ts :: tk == m.conditions[i].token ==> sat[i]
+//@ func (*compiledRowMatcher).matchLeafTokens
+//@ appends scratch.tokenTargets
+//@ props C02
+//@ requires m != nil && scratch != nil
+//@ modifies all
+//@ loop 1 invariant -1 <= $index && $index < len($range) && forall tk in $range[:$index + 1] :: hitAll(tk, targets, m, sat)
+//@ loop 2 invariant -1 <= $index && $index < len(targets) && forall i in targets[:$index + 1] :: token == m.conditions[i].token ==> sat[i]
+//@ loop 2 invariant forall tk in $range1[:$index1 + 1] :: hitAll(tk, targets, m, sat)
+
+// the fast-path word callback of matchLeafTokens: the folded word is compared with
+// every open target.
+//@ func (*compiledRowMatcher).matchLeafTokens$1
+//@ appends scratch.foldBuf
+//@ props C02
+//@ requires m != nil && scratch != nil
+//@ modifies all
+//@ loop 0 invariant -1 <= $index && $index < len(targets) && forall i in targets[:$index + 1] :: str(scratch.foldBuf) == m.conditions[i].token ==> sat[i]
 
 // add may only be called for the row that was just verified by matchRowBytes.
 //@ func (*rowBatcher).add
@@ -1147,6 +1204,14 @@ package bloomsearch
 //@ loop 2 invariant cursorOK(cursor) && len(cursor.blocks) == len(blocks) && handleHealthy
 //@ at call (*fileHandlePool).acquire#1 assert [C24,C22] slot.held && hasSections && pruneBloomQuery != nil && pruneBloomQuery.Expression != nil
 //@ at call (*blockFilterCursor).filtersFor#1 assert [C22] slot.held
+//@ ensures [C22,C21] slot.sem == old(slot.sem) && slot.ctx == old(slot.ctx) && r.ctx == old(r.ctx)     // the pass never re-points the worker's slot or the cursor's context
+//@ ensures [C21] forall c :: c != slot.sem ==> sent(c) == old(sent(c))     // the pass sends on no channel but the semaphore
+//@ loop 0 invariant [C21] forall c :: c != slot.sem ==> sent(c) == old(sent(c))
+//@ loop 1 invariant [C21] forall c :: c != slot.sem ==> sent(c) == old(sent(c))
+//@ loop 2 invariant [C21] forall c :: c != slot.sem ==> sent(c) == old(sent(c))
+//@ loop 0 invariant [C22,C21] slot.sem == old(slot.sem) && slot.ctx == old(slot.ctx) && r.ctx == old(r.ctx)
+//@ loop 1 invariant [C22,C21] slot.sem == old(slot.sem) && slot.ctx == old(slot.ctx) && r.ctx == old(r.ctx)
+//@ loop 2 invariant [C22,C21] slot.sem == old(slot.sem) && slot.ctx == old(slot.ctx) && r.ctx == old(r.ctx)
 //@ ensures [C24] pruneBloomQuery == nil || pruneBloomQuery.Expression == nil ==> ghost.hAcquired == old(ghost.hAcquired) && ghost.opens == old(ghost.opens) && len(result) == old(len(dst)) + len(blocks) && ghost.statsRecorded == old(ghost.statsRecorded)
 //@ ensures [C23] (ghost.statsRecorded - old(ghost.statsRecorded)) + (len(result) - old(len(dst))) <= len(blocks)
 //@ ensures [C23] slot.held && !ctxDone(r.ctx) ==> (ghost.statsRecorded - old(ghost.statsRecorded)) + (len(result) - old(len(dst))) == len(blocks)
@@ -1342,15 +1407,19 @@ package bloomsearch
 // sections back to back in block order and ends at offset+size.
 //@ loop 3 invariant [C17] rowsOK(newDataBlocks, currentOffset) && sectionsAt(newDataBlocks, 0, len(filterRegion.buf.buf) - filterRegion.buf.off) && storeWriter(writer)
 //@ loop 3 invariant [C17,C18] setsOK(fileEntries)
+// (stepping stones: the same two facts where the footer is written, so that the
+// postconditions only have to carry them across Close)
+//@ at call WriteFileFooter#1 assert [C17] !ghost.layoutOvf ==> rowsAt(newFileMetadata.DataBlocks, newFileMetadata.BlockFilterRegionOffset)
+//@ at call WriteFileFooter#1 assert [C17] !ghost.layoutOvf && newFileMetadata.BlockFilterRegionOffset + newFileMetadata.BlockFilterRegionSize <= MaxInt64 ==> sectionsAt(newFileMetadata.DataBlocks, newFileMetadata.BlockFilterRegionOffset, newFileMetadata.BlockFilterRegionOffset + newFileMetadata.BlockFilterRegionSize)
 //@ ensures [C17] result2 == nil && !ghost.layoutOvf ==> rowsAt(result1.DataBlocks, result1.BlockFilterRegionOffset)
 //@ ensures [C17] result2 == nil && !ghost.layoutOvf && result1.BlockFilterRegionOffset + result1.BlockFilterRegionSize <= MaxInt64 ==> sectionsAt(result1.DataBlocks, result1.BlockFilterRegionOffset, result1.BlockFilterRegionOffset + result1.BlockFilterRegionSize)
 //@ modifies heaps, $store, ghost.handleCloses, ghost.unsafeViews, ghost.pinned
 //@ loop 3 invariant ghost.creates == old(ghost.creates) + 1 && ghost.created == old(ghost.created) + 1
 //@ loop 3 invariant ghost.closeCalls == old(ghost.closeCalls) && ghost.closeOK == old(ghost.closeOK) && ghost.aborts == old(ghost.aborts)
-//@ loop 3 invariant ghost.updates == old(ghost.updates) && ghost.updateOK == old(ghost.updateOK) && ghost.tombstones == old(ghost.tombstones)
+//@ loop 3 invariant ghost.updates == old(ghost.updates) && ghost.updateOK == old(ghost.updateOK) && ghost.tombstones == old(ghost.tombstones) && ghost.tombFails == old(ghost.tombFails)
 //@ ensures ghost.creates == old(ghost.creates) + 1
 //@ ensures ghost.updates == old(ghost.updates) && ghost.updateOK == old(ghost.updateOK)
-//@ ensures result2 == nil ==> ghost.created == old(ghost.created) + 1 && ghost.closeOK == old(ghost.closeOK) + 1 && ghost.tombstones == old(ghost.tombstones) && ghost.aborts == old(ghost.aborts)
+//@ ensures result2 == nil ==> ghost.created == old(ghost.created) + 1 && ghost.closeOK == old(ghost.closeOK) + 1 && ghost.tombstones == old(ghost.tombstones) && ghost.aborts == old(ghost.aborts) && ghost.tombFails == old(ghost.tombFails)
 //@ ensures result2 != nil ==> result1 == nil
 //@ ensures result2 != nil ==> ghost.tombstones - old(ghost.tombstones) == ghost.created - old(ghost.created)
 //@ ensures ghost.created <= old(ghost.created) + 1 && ghost.created >= old(ghost.created)
@@ -1709,7 +1778,7 @@ package bloomsearch
 //@ loop 10 invariant [C12] -1 <= $index && $index < len(group) && 0 <= groupIndex && groupIndex < len(mergeGroups) && group == mergeGroups[groupIndex] && len(deleteOps) == filesIn(mergeGroups[:groupIndex]) + $index + 1
 //@ at call Update#1 assert [C12] len(deleteOps) == filesIn(mergeGroups) && (len(deleteOps) == 0 || len(deleteOps) <= b.config.MaxFilesToMergePerOperation)
 //@ modifies heaps, $store, ghost.handleCloses, ghost.unsafeViews, ghost.pinned
-//@ loop 8 invariant -1 <= $index && ghost.updates == old(ghost.updates) && ghost.updateOK == old(ghost.updateOK) && ghost.tombstones == old(ghost.tombstones)
+//@ loop 8 invariant -1 <= $index && ghost.updates == old(ghost.updates) && ghost.updateOK == old(ghost.updateOK) && ghost.tombstones == old(ghost.tombstones) && ghost.tombFails == old(ghost.tombFails)
 //@ loop 8 invariant ghost.created == old(ghost.created) + $index + 1 && ghost.creates == old(ghost.creates) + $index + 1 && ghost.closeOK == old(ghost.closeOK) + $index + 1 && len(writeOps) == $index + 1
 //@ loop 9 invariant -1 <= $index && $index < len(writeOps) && ghost.updates == old(ghost.updates) && ghost.updateOK == old(ghost.updateOK)
 //@ loop 9 invariant ghost.tombstones - old(ghost.tombstones) == ghost.created - old(ghost.created) - len(writeOps) + $index + 1
@@ -1717,6 +1786,10 @@ package bloomsearch
 //@ loop 11 invariant ghost.tombstones == old(ghost.tombstones) + $index + 1 && ghost.created == old(ghost.created) + len(writeOps)
 //@ loop 11 invariant ghost.tombstonesAtUpdate == old(ghost.tombstones) && ghost.closeOKAtUpdate == old(ghost.closeOK) + len(writeOps)
 //@ loop 12 invariant ghost.updates == old(ghost.updates) + 1 && ghost.updateOK == old(ghost.updateOK) + 1
+// a committed merge whose source cleanup failed anywhere — first, middle or last source — says so
+//@ loop 12 invariant ghost.tombFails - old(ghost.tombFails) == len(tombstoneErrs)
+//@ ensures ghost.updateOK == old(ghost.updateOK) + 1 && ghost.tombFails > old(ghost.tombFails) ==> result1 != nil && result0 != nil && wraps(result1, ErrPostCommitCleanup)
+//@ ensures ghost.updateOK == old(ghost.updateOK) + 1 && ghost.tombFails == old(ghost.tombFails) ==> result1 == nil
 //@ loop 12 invariant ghost.tombstonesAtUpdate == old(ghost.tombstones) && ghost.closeOKAtUpdate - old(ghost.closeOK) == ghost.created - old(ghost.created)
 //@ ensures ghost.updates <= old(ghost.updates) + 1
 //@ ensures result1 == nil ==> ghost.updateOK == old(ghost.updateOK) + 1 || (ghost.updates == old(ghost.updates) && ghost.creates == old(ghost.creates))
@@ -2343,3 +2416,21 @@ package bloomsearch
 //@ props C16
 //@ modifies heaps, $fs
 //@ ensures ghost.fsOpens == old(ghost.fsOpens) && ghost.fsRemoves == old(ghost.fsRemoves) && ghost.fsRenames == old(ghost.fsRenames)
+
+// C22: the workers' slots draw on the ENGINE's query semaphore — the one whose
+// capacity is MaxQueryConcurrency — for the filter pass and for the block scans
+// alike (a second semaphore would double the bound).
+//@ func (*BloomSearchEngine).Query$closure(evaluateBlockFilters)
+//@ props C22 C21
+//@ requires b != nil && r != nil && handles != nil && blockJobs != nil && chanof(blockJobs, "dataBlockJob")
+//@ modifies all
+//@ loop 0 invariant b != nil && r != nil && handles != nil && blockJobs != nil && slot.sem == b.querySemaphore && slot.ctx == r.ctx && chanof(slot.sem, "struct{}")
+//@ loop 1 invariant b != nil && r != nil && handles != nil && blockJobs != nil && slot.sem == b.querySemaphore && slot.ctx == r.ctx && chanof(slot.sem, "struct{}") && !slot.held
+//@ at call (*BloomSearchEngine).evaluateBlockFilters#1 assert [C22] slot.sem == b.querySemaphore && slot.ctx == r.ctx
+// the slot is given back before the worker can block on the block workers
+//@ at call sendWithContext[dataBlockJob]#1 assert [C22] !slot.held
+// C21: the reference taken for the filter pass and one per dispatched block: each
+// is released here unless the block job was handed over (its worker releases it)
+//@ loop 0 invariant [C21] ghost.retains - old(ghost.retains) == (ghost.releases - old(ghost.releases)) + (sent(blockJobs) - old(sent(blockJobs)))
+//@ loop 1 invariant [C21] ghost.retains - old(ghost.retains) == (ghost.releases - old(ghost.releases)) + (sent(blockJobs) - old(sent(blockJobs))) + 1
+//@ ensures [C21] ghost.retains - old(ghost.retains) == (ghost.releases - old(ghost.releases)) + (sent(blockJobs) - old(sent(blockJobs)))
